@@ -17,6 +17,60 @@ func init() {
 	register("idrange", opIdRange)
 	register("numfmt", opNumFmt)
 	register("lex", opLex)
+	register("idrangedesc", opIdRangeDesc)
+	register("idseq", opIdSeq)
+	register("lex2", opLex2)
+	register("numname", opNumName)
+}
+
+// idrangedesc <lo> <hi>  →  ok <string of 0/1 for lo..hi-1>, the code points looked up from hi-1 DOWN to lo
+func opIdRangeDesc(f []string) string {
+	lo, _ := strconv.Atoi(f[0])
+	hi, _ := strconv.Atoi(f[1])
+	buf := make([]byte, hi-lo)
+	for c := hi - 1; c >= lo; c-- {
+		if syntax.IdInRange(rune(c)) {
+			buf[c-lo] = '1'
+		} else {
+			buf[c-lo] = '0'
+		}
+	}
+	return "ok " + string(buf)
+}
+
+// idseq <cps>  →  ok <0/1 per code point>, looked up one after the other in the given order
+func opIdSeq(f []string) string {
+	var sb strings.Builder
+	sb.WriteString("ok ")
+	for _, c := range parseCps(f[0]) {
+		if syntax.IdInRange(c) {
+			sb.WriteByte('1')
+		} else {
+			sb.WriteByte('0')
+		}
+	}
+	return sb.String()
+}
+
+// lex2 <cps1> <cps2>  →  <answer of lex cps1> ;; <answer of lex cps2>   (two texts, one after the other, one process)
+func opLex2(f []string) string {
+	a := opLex(f[:1])
+	b := opLex(f[1:2])
+	return a + " ;; " + b
+}
+
+// numname <cps>  →  name | err <class> <code>     (exec.MatchIDName: the spelling where only a NAME is allowed)
+func opNumName(f []string) string {
+	id := &syntax.ID{}
+	id.SetLiteral(parseCps(f[0]))
+	t, err := exec.MatchIDName(id)
+	if err != nil {
+		return errField(err)
+	}
+	if t == nil || t.GetLiteral() != string(parseCps(f[0])) {
+		return "unknown"
+	}
+	return "name"
 }
 
 // idrange <lo> <hi>  →  ok <string of 0/1 for lo..hi-1>
